@@ -1,4 +1,4 @@
-(* C11: the four known defects of the acknowledgement path, as concrete runs of the model (known_findings/C11.json).
+(* C11: the known defects of the acknowledgement path, as concrete runs of the model (known_findings/C11.json).
    Each witness is evaluated by vm_compute; the same histories are replayed on the Go code by checks/C11.py. *)
 From Coq Require Import String List NArith ZArith.
 From Slock Require Import Engine.Types Engine.Queues Engine.Timers Engine.Engine Engine.Engine2 Engine.Ack.
@@ -83,4 +83,29 @@ Theorem late_registration_refuted :
       EReply 1 2 R_LOCKED_ERROR 0 0 102 0 0 None];
      []]
   /\ a_reg st = [] /\ a_next st = 2.
+Proof. vm_compute. repeat split. Qed.
+
+(* (v) the tables are keyed by RequestId alone.  Ack-lock A (request 1, LockId 101, key 7) is granted and registered
+   (index 0).  A second ack-lock B arrives on another connection with the SAME RequestId 1 (LockId 102, key 8): granted, its LOCK record is
+   refused by ProcessLeaderPushLock (RequestId already registered) -> DoAckLock(B, false): ERROR, hold rolled back,
+   UNLOCK record.  That UNLOCK record is looked up by RequestId too: it finds A's registration, drops it, and runs
+   DoAckLock(B, false) a second time -- B has nothing pending, so the "stale" branch drops a reference that belongs to
+   the timeout wheel: B is freed while the wheel still points at it.  A's acknowledgement (index 0) now finds no
+   registration: A is never reported SUCCED and times out although its record was acknowledged; the sweep then
+   dereferences the freed B. *)
+Definition wLk (conn req lockid key : N) : aaction :=
+  AAct (AReq conn (make_cmd true req 0 lockid key 4096 5 0 10 0 0 None)).
+Definition run_duplicate_request_id : list aaction :=
+  [wLk 1 1 101 7; wLk 2 1 102 8; AAckEvt 0 true; AAct (AAdvance 6); AAct ASweepT].
+Theorem duplicate_request_id_refuted :
+  let '(st, evs) := arun (init_astate 1000000 1 1) run_duplicate_request_id in
+  answers evs =
+    [[]; [EReply 2 1 R_ERROR 0 0 102 0 0 None]; [];      (* the acknowledgement of A's record: nothing *)
+     [];
+     [EReply 1 1 R_TIMEOUT 0 0 101 0 0 None; EPanic "uaf:doTimeOut"]]
+  /\ (let st2 := fst (arun (init_astate 1000000 1 1) (firstn 2 run_duplicate_request_id)) in
+      a_reg st2 = []                                                       (* A's registration is gone *)
+      /\ option_map (fun l => (l_ack l, l_locked l)) (aget (store (a_db st2)) 1) = Some (1, 1)   (* A still pending *)
+      /\ aget (store (a_db st2)) 2 = None                                   (* B freed ... *)
+      /\ twheel (a_db st2) = [(1, [1; 2])]).                                (* ... and still in the timeout wheel *)
 Proof. vm_compute. repeat split. Qed.
